@@ -2,6 +2,7 @@
    The quantifier is finite (416 vectors), so evaluation inside Coq is a proof: the vectors are regenerated
    from tests/conformance/data on every run (theories/Vectors_gen.v).  The two theorems tie the *models*
    to the expectations; the real tools are run against the same pinned bytes by the harness. *)
+From Mcap Require ConstsTie LayoutTie. (* regenerated ties to /repo's source that this property's model relies on *)
 From Coq Require Import List NArith Bool.
 From Mcap Require Import Bytes Writer Lexer C17Support Vectors_gen.
 Import ListNotations.
